@@ -13,11 +13,11 @@ pub fn def() -> CheckDef {
         id: "C13",
         title: "Processes are isolated; outcome is independent of load, cache size and threads",
         case,
-        rule: "case = 2..12 (thorough: up to 64) concurrently started processes over 1..3 generated models with overlapping variable names, each with its own start valuation x cache capacity in {1, 2, n/2, n, 1024} (capacity below the number of processes forces evictions and reloads in mid-flight) x store backend x a client that answers any open interrupt of any process in a seeded order x seeded schedule, plus a second start with the pid of a live process. Every process's projection (multiset of its messages up to ids, final task outcomes, terminal event and outputs) must equal the same (model, valuation, client table) run alone with the default cache; pids unique; duplicate start refused; no message carries a foreign pid. non-trivial = at least 3 processes ran concurrently and the capacity was below their number or two processes of the same model had different valuations; distinct = distinct (scenario hash, schedule hash)",
+        rule: "case = 2..12 (thorough: up to 64) concurrently started processes over 1..3 generated models with overlapping variable names, each with its own start valuation x cache capacity in {1, 2, n/2, n, 1024} (capacity below the number of processes evicts processes that are in use) x evictions of seeded processes at seeded quiescent points (dropped and reloaded from the store) x store backend x a client that answers any open interrupt of any process in a seeded order x seeded schedule, plus a second start with the pid of a live process. Every process's projection (multiset of its messages up to ids, final task outcomes, terminal event and outputs) must equal the same (model, valuation, client table) run alone with the default cache; pids unique; duplicate start refused; no message carries a foreign pid. non-trivial = at least 3 processes ran concurrently and the capacity was below their number or two processes of the same model had different valuations; distinct = distinct (scenario hash, schedule hash)",
         level: "exploration",
         assumptions: &["runtime worker threads are approximated by task-level interleaving (layer 1)", "models without run-time generated acts (their reload is the recorded finding of C12)", "monotone simulated clock", "no storage errors are injected"],
-        probes: &["probe.capacity_below_processes", "probe.evicted_by_capacity", "probe.same_model_different_values", "probe.duplicate_start", "probe.sqlite", "probe.ten_or_more_processes"],
-        quick_cases: 400,
+        probes: &["probe.capacity_below_processes", "probe.evicted_and_reloaded", "probe.same_model_different_values", "probe.duplicate_start", "probe.sqlite", "probe.ten_or_more_processes"],
+        quick_cases: 600,
         no_shrink: &[],
     }
 }
@@ -27,7 +27,7 @@ fn gen_scenario(rng: &mut vsim::rng::Rng, thorough: bool) -> Scenario {
     let mut sc = Scenario::default();
     let mut reactions = BTreeMap::new();
     for mi in 0..nmodels {
-        let opts = LifeOpts { catches: true, scripted_actions: &["complete", "complete", "complete", "error", "skip", "submit"], p_scripted: *rng.pick(&[0, 150, 300]), adversary: None, dup: false, generators: false, hooks: false, outputs: true };
+        let opts = LifeOpts { catches: true, scripted_actions: &["complete", "complete", "complete", "error", "skip", "submit", "abort"], p_scripted: *rng.pick(&[0, 150, 300]), adversary: None, dup: false, generators: false, hooks: false, outputs: true, drop_outputs: false };
         let mut one = gen_lifecycle(rng, &opts);
         let mut m = one.models.remove(0);
         m.id = format!("m{}", mi + 1);
@@ -78,10 +78,21 @@ fn gen_scenario(rng: &mut vsim::rng::Rng, thorough: bool) -> Scenario {
         sc.starts.push(Start { model: format!("m{}", mi + 1), vars, pid: Some(format!("p{}", i + 1)), at_q: 0 });
     }
     sc.engine.cache_cap = *rng.pick(&[1, 2, (n as i64 / 2).max(1), n as i64, 1024]);
+    // explicit evictions at quiescent points (a process that is evicted while it is in use is kept
+    // alive by the engine; at a quiescent point it is really dropped and reloaded from the store)
+    if rng.below(2) == 0 {
+        for _ in 0..(1 + rng.below(4)) {
+            sc.faults.push(FaultOp { at_q: 1 + rng.below(3 * n as u64) as usize, kind: "evict".into(), arg: rng.below(n as u64) as i64 });
+        }
+    }
     sc.engine.store = if rng.below(4) == 0 { "sqlite".into() } else { "mem".into() };
-    sc.engine.keep_processes = true;
-    sc.client.mode = "sequential".into();
-    sc.client.order = "random".into();
+    // with the default retention a finished process is removed at once; the final task table is then
+    // read from the trace only
+    sc.engine.keep_processes = rng.below(3) != 0;
+    // mostly a client that acts at quiescent points (canonical order within a process); sometimes one
+    // that answers inside the message handler, while other tasks of the process are still queued
+    sc.client.mode = if rng.below(5) == 0 { "inline".into() } else { "sequential".into() };
+    sc.client.order = "random_pid_canonical".into();
     sc.knobs = random_knobs(rng);
     sc.max_ops = 2000;
     sc.step_cap = 200_000;
@@ -160,6 +171,10 @@ pub fn case(ctx: &mut CaseCtx) -> CaseOut {
     }
     let mut v: Vec<Violation> = vec![];
     ctx.count("probe.duplicate_start", 1);
+    // one process must not be able to stop the engine for the others
+    if let Some(p) = rec.panics.iter().find(|p| p.contains("event_loop")) {
+        v.push(Violation::new("C13", "scheduler_loop_died", json!({"keep_processes": sc.engine.keep_processes}), format!("the scheduler loop task panicked, no process makes progress any more: {}", p)));
+    }
     if rec.ops.iter().any(|o| o.op == "duplicate_start" && o.detail == "accepted") {
         v.push(Violation::new("C13", "duplicate_start_accepted", json!({}), "a second start with the pid of a live process was accepted".into()));
     }
@@ -179,9 +194,9 @@ pub fn case(ctx: &mut CaseCtx) -> CaseOut {
     }
     if (sc.engine.cache_cap as usize) < n {
         ctx.count("probe.capacity_below_processes", 1);
-        if rec.trans.iter().any(|t| t.pure_write) {
-            ctx.count("probe.evicted_by_capacity", 1);
-        }
+    }
+    if rec.trans.iter().any(|t| t.pure_write) {
+        ctx.count("probe.evicted_and_reloaded", 1);
     }
     if sc.engine.store == "sqlite" {
         ctx.count("probe.sqlite", 1);
@@ -205,7 +220,9 @@ pub fn case(ctx: &mut CaseCtx) -> CaseOut {
     if same_model_diff {
         ctx.count("probe.same_model_different_values", 1);
     }
-    if v.is_empty() {
+    // a client that answers inside the handler races with the queued tasks of its process: which of two
+    // actions lands first is then a legitimate schedule effect, the projections are not compared
+    if v.is_empty() && sc.client.mode == "sequential" {
         for (i, s) in sc.starts.iter().enumerate() {
             let key = format!("{}|{}", s.model, Value::Object(s.vars.clone()));
             if !solo.contains_key(&key) {
@@ -214,13 +231,19 @@ pub fn case(ctx: &mut CaseCtx) -> CaseOut {
                 one.engine.cache_cap = 1024;
                 one.engine.store = "mem".into();
                 one.knobs = SimKnobs { policy: "fifo".into(), tie_permille: 0, max_delta_us: 40 };
-                one.client.order = "fifo".into();
+                one.client.order = "canonical".into();
                 let r1 = ctx.run(&one);
                 solo.insert(key.clone(), project(&r1, "solo"));
             }
-            let pid = format!("p{}", i + 1);
+            let pid = s.pid.clone().unwrap_or_else(|| format!("p{}", i + 1));
             let mine = project(&rec, &pid);
             let alone = &solo[&key];
+            // a process that cannot finish alone (an interrupt whose scripted answer is refused) stops at a
+            // point that legitimately depends on the order in which parallel branches were served
+            if alone.terminal.is_empty() {
+                ctx.count("solo_run_unfinished", 1);
+                continue;
+            }
             // the solo projection uses pid "solo": pids inside values are normalised by strip_ids (started pids)
             let norm = |p: &Proj| Proj { messages: p.messages.iter().map(|m| m.replace(&format!("\"{}\"", pid), "\"<pid>\"").replace("\"solo\"", "\"<pid>\"")).collect(), outcome: p.outcome.clone(), terminal: p.terminal.iter().map(|m| m.replace(&format!("\"{}\"", pid), "\"<pid>\"").replace("\"solo\"", "\"<pid>\"")).collect() };
             let (a, b) = (norm(&mine), norm(alone));
